@@ -91,9 +91,16 @@ def write_if_changed(path, content):
 # generated Coq files
 
 
+REGEN_NOTES = []
+
+
 def regen():
-    """Regenerate coq/Gen/*.v from /repo.  Returns dict name -> error text (empty when fine)."""
+    """Regenerate coq/Gen/*.v from /repo.  Returns dict name -> error text (empty when fine).
+    A translator that cannot handle the current sources (an unsupported construct after a rewrite) falls back to the pinned
+    output of the pinned commit (tools/pinned/): the model is then a fixed one for this run and only the correspondence ties
+    it to the code - which is recorded in REGEN_NOTES and reaches the evidence; a behavioural difference still breaks it."""
     errs = {}
+    del REGEN_NOTES[:]
     gens = [("Policer", [sys.executable, os.path.join(VERIF, "tools/py2coq.py"),
                          os.path.join(REPO, "src/gufo/snmp/policer.py")]),
             ("Constants", [sys.executable, os.path.join(VERIF, "tools/gen_constants.py"), REPO]),
@@ -104,8 +111,17 @@ def regen():
                 continue
             p = subprocess.run(cmd, stdout=subprocess.PIPE, stderr=subprocess.PIPE, text=True)
             if p.returncode != 0:
-                errs[name] = p.stderr.strip() or "translator failed"
+                pin = os.path.join(VERIF, "tools", "pinned", name + ".v")
+                if os.path.exists(pin):
+                    REGEN_NOTES.append("translator %s could not handle the current sources (%s): the pinned model is used, tied by the "
+                                       "correspondence run only" % (name, (p.stderr.strip() or "failed")[-200:]))
+                    write_if_changed(os.path.join(COQ, "Gen", name + ".v"), open(pin).read())
+                else:
+                    errs[name] = p.stderr.strip() or "translator failed"
                 continue
+            for ln in p.stdout.splitlines():
+                if ln.startswith("(* NOTE "):
+                    REGEN_NOTES.append("translator %s: %s" % (name, ln[3:-3]))
             write_if_changed(os.path.join(COQ, "Gen", name + ".v"), p.stdout)
     return errs
 
@@ -213,6 +229,13 @@ def ocaml_build(name, model, driver, timeout=900):
     odir = os.path.join(VERIF, "ocaml")
     bdir = os.path.join(CACHE, "ocaml", name)
     exe = os.path.join(bdir, name)
+    # the extracted model must be the one of the CURRENT generated files (constants, error map, policer): re-extract first
+    regen()
+    target = {"codec": "ExtractCodec.vo", "v3": "ExtractV3.vo", "policer": "ExtractPolicer.vo"}.get(name)
+    if target:
+        ok, log = coq_make([target])
+        if not ok:
+            return False, "extraction (make %s) failed:\n%s" % (target, log[-2000:]), exe
     with Lock("ocaml-" + name):
         os.makedirs(bdir, exist_ok=True)
         mod = model[0].upper() + model[1:]
@@ -295,6 +318,31 @@ def run_lines(exe, lines, timeout=900, shards=None, env=None):
 
 # --------------------------------------------------------------------------
 # implementation drivers
+
+
+def default_max_repetitions(mode="sync"):
+    """SnmpSession(max_repetitions=<default>) as the client source says now."""
+    try:
+        src = open(os.path.join(REPO, "src/gufo/snmp/%s_client/client.py" % ("async" if mode.startswith("a") else "sync"))).read()
+    except OSError:
+        return 20
+    m = re.search(r"max_repetitions:\s*int\s*=\s*(\w+)", src)
+    if not m:
+        return 20
+    if m.group(1).isdigit():
+        return int(m.group(1))
+    m2 = re.search(r"^%s(?:\s*:\s*\w+)?\s*=\s*(\d+)" % re.escape(m.group(1)), src, re.M)      # a named constant
+    return int(m2.group(1)) if m2 else 20
+
+
+def constant(name, default=None):
+    """Value of a constant of Gen/Constants.v (regenerated from /repo's sources by regen())."""
+    try:
+        src = open(os.path.join(COQ, "Gen", "Constants.v")).read()
+    except OSError:
+        return default
+    m = re.search(r"Definition\s+%s\s*:\s*Z\s*:=\s*\(?(-?\d+)\)?\s*\." % re.escape(name), src)
+    return int(m.group(1)) if m else default
 
 
 def cargo_build_harness(profile):
@@ -420,6 +468,12 @@ class Check:
             else:
                 self.log("coqchk: exit 0; axioms, type-in-type, unsafe fixpoints, assumed positivity: all <none>")
         self.coq = res
+        scope = {"Policer": ("C19",), "ErrorMap": ("C01", "C04", "C07")}
+        notes = [n for n in REGEN_NOTES if self.prop in scope.get(n.split(" ")[1].rstrip(":"), (self.prop,))]
+        if notes:
+            self.coverage["translator_notes"] = notes
+            for n in notes:
+                self.log("note:", n[:200])
         self.coverage["obligations"] = res["obligations"]
         self.coverage["discharged"] = 0 if broken else res["obligations"]
         self.coverage["theorems"] = res["theorems"]
